@@ -195,6 +195,28 @@ def scenario(ctx, rng, j):
     judge('multisig:one-signature', [t.make_single_sig_witness(A, fields,
                                                                f_hex), lm],
           fields, False)
+    others = [g for g in sub if g != f]
+    if others:
+        # one holder, two byte-different signatures (two permitted flags):
+        # still one signer
+        g = others[j % len(others)]
+        judge('multisig:one-signer-two-flags',
+              [t.make_single_sig_witness(A, fields, f_hex)
+               + t.make_single_sig_witness(A, fields, f'{g:02x}'), lm],
+              fields, False)
+        judge('multisig:one-signer-two-flags',
+              [t.make_single_sig_witness(A, fields, f'{g:02x}')
+               + t.make_single_sig_witness(A, fields, f_hex), lm],
+              fields, False)
+    lm3 = t.make_multisig_lock([pA, pC, pD], 3, a_hex)
+    judge('multisig:3of3-two-holders',
+          [t.make_single_sig_witness(A, fields, f_hex)
+           + t.make_single_sig_witness(C, fields, f_hex)
+           + t.make_single_sig_witness(A, fields, f_hex), lm3], fields, False)
+    judge('multisig:3of3-ok',
+          [t.make_single_sig_witness(D, fields, f_hex)
+           + t.make_single_sig_witness(A, fields, f_hex)
+           + t.make_single_sig_witness(C, fields, f_hex), lm3], fields, True)
     # --- graftroot key path / graftap key path
     lg = t.make_graftroot_lock(pA, a_hex)
     sig_family('graftroot-key', lg,
